@@ -9,13 +9,14 @@ ASSUMPTIONS = [
 ]
 
 VAL = Cls('NARROW', minus='\\')
+CRIT = Enum("a'\\\" ")      # apostrophe, backslash, double quote, blank: the characters the quoting helpers care about
 KEYS = ['k', 'key_2', 'note2', 'Pk']
 
 
-def document(layout, K=1, fix=None):
+def document(layout, K=1, fix=None, crit=False):
     """layout: 'one' | 'multi' ; presence / position selectors symbolic"""
     args = [('tp', IntRange(0, 2)), ('cp', IntRange(0, 2)), ('cpos', IntRange(0, 2)), ('tpos', IntRange(0, 2)), ('k1', IntRange(0, 3))] + \
-        hole_args('v', K, VAL)
+        hole_args('v', K, CRIT if crit else VAL)
 
     def build(a):
         v = text_of(a, 'v', K)
@@ -137,12 +138,14 @@ def instances(tier):
     quick = tier == 'quick'
     T1 = 280 if quick else 3000
     out = []
-    fixes = [{'cpos': 0, 'tpos': 1, 'k1': 0}, {'cpos': 0, 'tpos': 2, 'k1': 0}, {'cpos': 1, 'tpos': 0, 'k1': 3}]
+    fixes = [{'cpos': 0, 'tpos': 1, 'k1': 0}, {'cpos': 2, 'tpos': 2, 'k1': 0}, {'cpos': 1, 'tpos': 0, 'k1': 3}]
     for j, f in enumerate(fixes):
         for layout in ('one', 'multi'):
-            if quick and (j + (layout == 'multi')) % 2 == 1:
+            if quick and layout == 'multi' and j != 0:
                 continue
             out.append({'name': f'document/{layout}/f{j}', 'factory': 'document', 'params': {'layout': layout, 'K': 1 if quick else 2, 'fix': f},
                         'timeout': T1, 'native_limit': 80})
+    out.append({'name': 'document/one/crit/K2', 'factory': 'document', 'params': {'layout': 'one', 'K': 2, 'fix': dict(fixes[1], tp=1, cp=1), 'crit': True},
+                'timeout': T1, 'native_limit': 80})
     out.append({'name': 'api_flag', 'factory': 'api_flag', 'params': {'K': 1 if quick else 2}, 'timeout': T1, 'native_limit': 60})
     return out
